@@ -255,7 +255,14 @@ func (s *Session) GetActiveStreamCount() int {
 // OpenStream is used to create a new stream
 func (s *Session) OpenStream() (*Stream, error) {
 	if s.IsClosed() {
-		return nil, s.shutdownErr
+		// Close publishes `shutdown` before it stores shutdownErr
+		s.shutdownLock.Lock()
+		err := s.shutdownErr
+		s.shutdownLock.Unlock()
+		if err == nil {
+			err = ErrSessionShutdown
+		}
+		return nil, err
 	}
 	if !s.IsHealthy() {
 		return nil, ErrSessionUnhealthy
@@ -287,6 +294,12 @@ func (s *Session) OpenStream() (*Stream, error) {
 // AcceptStream is used to block until the next available stream
 // is ready to be accepted.
 func (s *Session) AcceptStream() (*Stream, error) {
+	// a closed session doesn't hand out the streams which were still queued when it shut down
+	select {
+	case <-s.shutdownCh:
+		return nil, s.shutdownErr
+	default:
+	}
 	select {
 	case stream := <-s.acceptCh:
 		s.logger.tracef("accept stream:%d", stream.id)
